@@ -175,6 +175,45 @@ def seq_select_visibility(rep):
     rep.case(('seq-select-visibility',), True, sample=replay)
 
 
+def seq_ack_then_close(rep, what):
+    """the broker confirms the message (Basic.Ack) and closes the channel or the connection right behind it; the reader has
+    dispatched both frames before the publisher looks again: the message was confirmed, publish returns True (the close is
+    the next operation's business).  Deterministic: the frames are dispatched from inside the write."""
+    import amqpstorm
+    from amqpstorm.channel import Channel
+    from pamqp import specification as spec
+    conn = amqpstorm.Connection('localhost', 'guest', 'guest', lazy=True)
+    conn.set_state(3)
+    ch = Channel(1, conn, 1)
+    ch.set_state(3)
+    conn._channels[1] = ch
+    conn._channel0._write_frame = lambda fr: None
+    conn._io.close = lambda: None
+
+    def write_frame(cid, fr):
+        if fr.name == 'Confirm.Select':
+            ch.rpc.on_frame(spec.Confirm.SelectOk())
+    conn.write_frame = write_frame
+
+    def write_frames(cid, frames):
+        ch.on_frame(spec.Basic.Ack(delivery_tag=1))
+        if what == 'channel':
+            ch.on_frame(spec.Channel.Close(reply_code=406, reply_text='PRECONDITION_FAILED', class_id=0, method_id=0))
+        else:
+            conn._channel0.on_frame(spec.Connection.Close(reply_code=320, reply_text='CONNECTION_FORCED', class_id=0, method_id=0))
+    conn.write_frames = write_frames
+    ch.confirm_deliveries()
+    replay = {'kind': 'seq-ack-then-close', 'what': what}
+    try:
+        got = ('returned', ch.basic.publish(b'payload', 'rk'))
+    except amqpstorm.AMQPError as why:
+        got = (type(why).__name__, getattr(why, 'error_code', None))
+    if got != ('returned', True):
+        rep.violation('C13/acked-message-reported-as-failed', 'the broker acknowledged the message and then closed the %s; publish gave %r '
+                      'instead of True' % (what, got), replay)
+    rep.case(('seq-ack-then-close', what), True, sample=replay)
+
+
 def cosim_one(args):
     sc, seed = args
     import amqpstorm
@@ -270,6 +309,8 @@ def check(rep):
     for _ in range(2500 if not thorough else 40000):
         seq_case(rep, rng, lines, expect)
     seq_select_visibility(rep)
+    for what in ('channel', 'connection'):
+        seq_ack_then_close(rep, what)
     jobs = []
     for _ in range(80 if not thorough else 2000):
         nchan = rng.randint(1, 2)
